@@ -28,7 +28,7 @@ m = {
     "hooks": {
         "guard": "verif",
         "enable": "go build -tags verif -overlay /verif/.build/base/overlay.json (overlay generated from /repo's current tree by ./check; no file in /repo is modified)",
-        "baseline_off_cmd": "cd /repo && go test -vet=off -count=1 -timeout 25m ./... && cd plugins/contrib && go test -vet=off -count=1 ./...",
+        "baseline_off_cmd": "(cd /repo && go test -json -vet=off -count=1 -timeout 25m ./...); (cd /repo/plugins/contrib && go test -json -vet=off -count=1 -timeout 25m ./...)",
         "source_commits": [],
         "add_only": True,
     },
